@@ -150,7 +150,12 @@ Inductive fop_in :=
 | IHandle (g : nat) (dt : Z) (matches : list bool) (code : Z)  (* observed: 0 pass | 1 limited+429 | 2 panic | 3 other *)
 | IClose (dt : Z) (code : Z).   (* Close of a superseded generation (Pipeline.Inherit calls prev.Close()): no effect in the model; observed 0 | 2 panic *)
 
-Record flt_case := { fc_specs : list fspec; fc_ops : list fop_in; fc_bad : bool }.
+(** one row per handled request: the rules of the spec its generation was built from, the
+    request's method and path, Go regexp's verdict per rule pattern ([ur_rx], oracle) and the
+    verdict of the real [URLRule.Match] per rule ([ur_obs], observation) *)
+Record urow := { ur_spec : nat; ur_method : string; ur_path : string; ur_rx : list bool; ur_obs : list bool }.
+
+Record flt_case := { fc_specs : list fspec; fc_ops : list fop_in; fc_bad : bool; fc_rows : list urow }.
 
 Definition ref_code (r : option Z) : Z := match r with Some k => k | None => -1 end.
 
@@ -311,9 +316,14 @@ Fixpoint model_ops (q : quirks) (specs : list fspec) (w : fworld) (now : Z) (ops
   | IClose dt _ :: t => IClose dt 0 :: model_ops q specs w (now + dt) t
   end.
 
+Definition rows_ok (specs : list fspec) (rows : list urow) : bool :=
+  forallb (fun r => list_eqb Bool.eqb
+                      (match_row (fs_urls (nth (ur_spec r) specs empty_spec)) (ur_method r) (ur_path r) (ur_rx r))
+                      (ur_obs r)) rows.
+
 Definition check_flt_with (pinned : quirks) (c : flt_case) : result :=
   if fc_bad c then (true, true, 0%N, 0%N) else
-  let corr := flt_corr pinned (fc_specs c) fworld0 0 (fc_ops c) in
+  let corr := flt_corr pinned (fc_specs c) fworld0 0 (fc_ops c) && rows_ok (fc_specs c) (fc_rows c) in
   let prop := flt_prop (fc_specs c) [] [] [] [] 0 (fc_ops c) in
   let ideal_ok := flt_prop (fc_specs c) [] [] [] [] 0 (model_ops ideal (fc_specs c) fworld0 0 (fc_ops c)) in
   (corr, prop,
